@@ -16,6 +16,17 @@ def _tests(fi):
         elif isinstance(n, ast.comprehension):
             for t in n.ifs:
                 yield n, t
+    # `value or default` / `value and f(value)` used as an expression: every operand but the last is judged by truthiness
+    in_tests = set()
+    for n in ast.walk(fi.node):
+        if isinstance(n, (ast.If, ast.While, ast.IfExp)):
+            in_tests |= {id(x) for x in ast.walk(n.test)}
+    for st in ast.walk(fi.node):
+        if isinstance(st, ast.stmt):
+            for n in ast.walk(st):
+                if isinstance(n, ast.BoolOp) and id(n) not in in_tests and len(n.values) >= 2:
+                    yield st, ast.BoolOp(op=n.op, values=list(n.values[:-1]) + [ast.Constant(value=True)])
+                    in_tests.add(id(n))
 
 
 def _truthiness_uses(test, expr_txt):
